@@ -1,1 +1,4 @@
+pub mod c10;
+pub mod c11;
+pub mod c16;
 pub mod c20;
